@@ -693,7 +693,9 @@ fn run_case(case: usize, nch: usize, script: Option<Vec<Op>>, rng: &mut Rng, len
                     };
                     if r && !invoices.contains_key(h) {
                         invoices.insert(*h, *a);
-                        if o > 0 || seen.contains(h) {
+                        // (the theorem's hypothesis: nothing OUTGOING in flight for the hash when its approval arrives;
+                        // value that is only incoming does not make the approval late)
+                        if o > 0 {
                             late_invoice.push(*h);
                         }
                         seen.push(*h);
@@ -912,6 +914,12 @@ fn run(args: &Args) {
         (2, vec![Op::Invoice(1, 100_000_000), Op::SignCp(0, one(1, 60_000, true)), Op::ForceClose(0), Op::Restart,
                  Op::SignCp(1, one(1, 100_000, true)), Op::SignCp(1, one(1, 40_000, true)), Op::Restart,
                  Op::SignCp(1, one(1, 40_223, true))]),
+        // a hash that is approved AND incoming (a looped route): A holds the incoming HTLC in both commitments,
+        // validates a commitment that drops it, B pays out against the still-recorded incoming value, A revokes:
+        // the re-check at the revocation must refuse although A's own commitment carries nothing outgoing
+        (2, vec![Op::Validate(0, one(1, 200_000, false)), Op::Revoke(0), Op::SignCp(0, one(1, 200_000, false)),
+                 Op::Invoice(1, 100_000_000), Op::Validate(0, Content::default()),
+                 Op::SignCp(1, one(1, 300_000, true)), Op::Revoke(0), Op::Revoke(0), Op::Restart, Op::Revoke(0)]),
         (3, vec![Op::Invoice(2, 50_000_000), Op::Validate(2, one(2, 50_000, true)),
                  Op::SignCp(0, one(2, 50_000, true)), Op::Revoke(2), Op::Revoke(2), Op::Validate(2, Content::default()),
                  Op::Revoke(2)]),
